@@ -663,11 +663,14 @@ def restore_closures(tree, modname, known, ref_locals=None):
             nested_now = {x.name for x in ast.walk(m_) if isinstance(x, ast.FunctionDef) and x is not m_}
             lost = sorted({k[len(prefix):] for k in known if k.startswith(prefix) and '.' not in k[len(prefix):]
                            and k[len(prefix):] not in nested_now})
+            from_locals = False
             if not lost and ref_locals:
                 bound_now = {x.id for x in ast.walk(m_) if isinstance(x, ast.Name)} | nested_now | \
                     {a.arg for a in m_.args.args}
                 lost = sorted(n_ for n_ in ref_locals.get(prefix[:-1], []) if n_ not in bound_now)
-            cands = [f for f in lost if f.lstrip('_') == g.name.lstrip('_')] or (lost if len(lost) == 1 else [])
+                from_locals = True      # these may be plain variables that moved into a new helper: names must agree
+            cands = [f for f in lost if f.lstrip('_') == g.name.lstrip('_')] or \
+                (lost if len(lost) == 1 and not from_locals else [])
             if not cands:
                 cands = sorted([f for f in lost if len(f.strip('_')) > 3 and f.strip('_') in g.name], key=len)[-1:]
             # `f = self.g` in m: the alias is the closure's old name
@@ -763,6 +766,52 @@ def table_loops(tree):
                 c.body[c.body.index(st)] = ast.fix_missing_locations(ast.copy_location(fn, st))
                 n += 1
     return n
+
+
+def restore_methods(tree, modname, known, ref_locals):
+    """the reverse of restore_closures: a method of the reference tree (mod:C.g) that is gone, and a NEW nested function f
+    (not a local of the reference tree's m) in a method m of C that captures nothing of m but `self`: read as the method
+    again, the calls f(...) as self.g(...)."""
+    done = []
+    for c in [n for n in tree.body if isinstance(n, ast.ClassDef)]:
+        have = {st.name for st in c.body if isinstance(st, ast.FunctionDef)}
+        prefix = '%s:%s.' % (modname, c.name)
+        missing = sorted({k[len(prefix):] for k in known if k.startswith(prefix) and '.' not in k[len(prefix):]
+                          and k[len(prefix):] not in have})
+        if not missing:
+            continue
+        for m_ in [st for st in list(c.body) if isinstance(st, ast.FunctionDef) and st.args.args]:
+            recv = m_.args.args[0].arg
+            old_locals = set((ref_locals or {}).get(prefix + m_.name, []))
+            for f in [x for x in m_.body if isinstance(x, ast.FunctionDef) and x.name not in old_locals]:
+                cands = [g for g in missing if g.strip('_') == f.name.strip('_')]
+                if len(cands) != 1:
+                    continue
+                g = cands[0]
+                own = {a.arg for a in f.args.args + f.args.kwonlyargs} | \
+                    {x.id for x in ast.walk(f) if isinstance(x, ast.Name) and isinstance(x.ctx, (ast.Store, ast.Del))}
+                outer = ({a.arg for a in m_.args.args} |
+                         {x.id for x in ast.walk(m_) if isinstance(x, ast.Name) and isinstance(x.ctx, ast.Store)}) - {recv}
+                captured = {x.id for x in ast.walk(f) if isinstance(x, ast.Name) and isinstance(x.ctx, ast.Load)
+                            and x.id in outer and x.id not in own}
+                if captured or any(isinstance(x, (ast.Nonlocal, ast.Global)) for x in ast.walk(f)):
+                    continue
+                new = copy.deepcopy(f)
+                new.name = g
+                new.args.args = [ast.arg(recv)] + new.args.args
+                m_.body.remove(f)
+
+                class T(ast.NodeTransformer):
+                    def visit_Name(self, node):
+                        if node.id == f.name and isinstance(node.ctx, ast.Load):
+                            return ast.copy_location(ast.Attribute(ast.Name(recv, ast.Load()), g, ast.Load()), node)
+                        return node
+                T().visit(m_)
+                c.body.insert(c.body.index(m_) + 1, new)
+                ast.fix_missing_locations(tree)
+                missing.remove(g)
+                done.append('%s.%s.%s -> %s.%s' % (c.name, m_.name, f.name, c.name, g))
+    return done
 
 
 def small_forms(tree):
